@@ -169,6 +169,10 @@ func (v *V) TermWidth(w int) { vSetTermWidth(v, w) }
 // MapOrder(true) asks for every map iteration order to be explored.
 func (v *V) MapOrder(nondet bool) {}
 
+// Symbolic reports whether the harness runs under the symbolic executor
+// (true) or natively (false).
+func (v *V) Symbolic() bool { return false }
+
 // Known reports whether the named known-finding predicate is listed as an
 // open finding (the harness then assumes its negation).
 func (v *V) Known(name string) bool { return v.known[name] }
